@@ -328,7 +328,7 @@ def main(argv):
                    ["memory model: sequential consistency per instruction; x86-TSO store buffering of plain stores is not modelled (locked instructions are SC on x86)",
                     "the sequential specification is gcc's compilation of the same operation source (gcc -O1 -fwrapv with gcc's <stdatomic.h>)",
                     "objects are naturally aligned (no split locks); widths 1, 2, 4, 8 and two 16-byte lock structures",
-                    "automatic-storage atomics are covered through pointers to them only (the emitted access sequence is the same as for heap objects)",
+                    "automatic-storage atomics: one object per run, owned by an emitted function that operates on it by name while other threads use its address",
                     "sampled, not exhaustive: a clean batch is evidence, not proof"],
                    wall, len(rep.new))
     print("C16 %s: %d simulated runs (%d sequential), %d with conflict windows, %d distinct (sampled subspace), %d violation(s), %.1fs" % (
